@@ -68,7 +68,7 @@ PROFILES = {
     "C03": {"cond": 0.85, "get": 12, "put": 40, "delete": 16},
     "C06": {"put": 45, "delete": 14, "restart": 6, "post": 8, "uidheavy": True},
     "C07": {"delete": 18, "put": 34, "delcoll": 3, "mk": 5, "reupload": 6},
-    "C08": {"proppatch": 12, "delete": 14, "reupload": 8, "restart": 5},
+    "C08": {"proppatch": 14, "delete": 14, "reupload": 8, "restart": 5, "retype": 0.2},
     "C09": {"proppatch": 12, "lock": 6, "reupload": 8, "delete": 9, "untyped": 0.45, "len": 36, "put": 40,
             "get": 8, "manynames": True},
     "C14": {"invalid": 0.3, "reupload": 16, "put": 40, "grammar": 0.65, "ctparams": 0.6, "otherfiles": 0.15},
@@ -293,6 +293,13 @@ def run_random_session(seed, prof, frontend="wsgi", prefix="/", backend="tree", 
                     if prof.get("propheavy"):
                         return gen_value(rng, allow_semicolon=backend in ("tree", "bare"))
                     return rng.choice(PROP_VALUES)
+                if rng.random() < prof.get("retype", 0.06):
+                    # the client asks for another kind of collection (valid combinations, and ones
+                    # with an element the server does not know)
+                    s.propupdate(c, [("resourcetype", rng.choice(
+                        ["collection,calendar", "collection,addressbook", "collection", "collection,calendar,junk",
+                         "collection,addressbook,junk", "collection,junk", "junk", "calendar"]))])
+                    continue
                 if s.explicit and rng.random() < 0.2:
                     # a no-op rewrite: re-send a value this session stored earlier
                     (ec, ep), ev_ = rng.choice(sorted(s.explicit.items()))
